@@ -68,9 +68,9 @@ impl Universe {
         for id in (0..10).chain(100..104) { u.keys.insert(ast::full_key(id).to_bytes(), id); }
         for id in 200..210 { u.keys.insert(ast::xonly_key(id).serialize().to_vec(), id); }
         for kind in HK::ALL { for h in 0..4 { u.hashes.insert((kind, ast::hash_value(kind, h)), h); } }
-        for h in (0..4).chain(200..204) { u.rawpkh.insert(ast::raw_pkh(h).to_byte_array().to_vec(), h); }
+        for h in (0..4).chain(100..104).chain(200..204) { u.rawpkh.insert(ast::raw_pkh(h).to_byte_array().to_vec(), h); }
         // (a) raw pkh atom for every key id
-        for h in (4..10).chain(100..104).chain(204..210) {
+        for h in (4..10).chain(204..210) {
             let v = ast::raw_pkh(h).to_byte_array().to_vec();
             out.line(&format!("D rawpkh {} {}", h, hex(&v)), "ok");
             u.rawpkh.insert(v, h);
@@ -243,7 +243,7 @@ fn lib_lex(bytes: &[u8]) -> (String, Option<Vec<Token>>) {
     }
 }
 
-struct Dec { wire: String, reenc: Option<Vec<u8>>, ty: Option<String>, panicked: bool }
+struct Dec { wire: String, reenc: Option<Vec<u8>>, ty: Option<String>, size: Option<usize>, panicked: bool }
 
 #[derive(Clone, Copy, PartialEq)]
 enum Mode { Consensus, Sane, ParamsConsensus, ParamsMax }
@@ -259,13 +259,29 @@ fn lib_decode<Pk: CKey, Ctx: ScriptContext<Key = Pk>>(u: &Universe, bytes: &[u8]
         };
         d.map(|ms| {
             let re = ms.encode().into_bytes();
-            (to_wire(u, &ms), re, ts(&ms.ty))
+            (to_wire(u, &ms), re, ts(&ms.ty), ms.script_size())
         })
     }));
     match r {
-        Ok(Ok((wire, re, ty))) => Dec { wire, reenc: Some(re), ty: Some(ty), panicked: false },
-        Ok(Err(e)) => Dec { wire: err_kind(&e), reenc: None, ty: None, panicked: false },
-        Err(_) => Dec { wire: "PANIC".into(), reenc: None, ty: None, panicked: true },
+        Ok(Ok((wire, re, ty, sz))) => Dec { wire, reenc: Some(re), ty: Some(ty), size: Some(sz), panicked: false },
+        Ok(Err(e)) => Dec { wire: err_kind(&e), reenc: None, ty: None, size: None, panicked: false },
+        Err(_) => Dec { wire: "PANIC".into(), reenc: None, ty: None, size: None, panicked: true },
+    }
+}
+
+/// `script_size()` of a DECODED miniscript against the length of the script it was decoded from.
+/// The statement's size claim is about miniscripts accepted under the context's consensus
+/// parameters, so it is judged for the three consensus-or-stricter entry points; what only `MAX`
+/// lets through (e.g. an uncompressed key in Segwitv0, where `pk_len` is a constant 34) is
+/// outside the quantifier: judged too when it agrees, an OBSERVATION when it does not.
+fn emit_dsize(out: &mut Out, ctx: CtxK, entry: &str, h: &str, n_bytes: usize, d: &Dec) {
+    if let Some(sz) = d.size {
+        if entry != "params-max" || sz == n_bytes {
+            out.line(&format!("J dsize {}:{} {} {}", ctx.name(), entry, h, sz), "ok");
+        } else {
+            out.count(&format!("observation: {} accepts under ValidationParams::MAX a script whose script_size() differs from its length", ctx.name()));
+            out.note(&format!("observation-maxsize-{}", ctx.name()), format!("script {} ({} bytes) decodes under MAX to a miniscript with script_size() = {}", h, n_bytes, sz));
+        }
     }
 }
 
@@ -290,6 +306,10 @@ fn emit_bytes<Pk: CKey, Ctx: ScriptContext<Key = Pk>>(out: &mut Out, u: &Univers
     let dm = lib_decode::<Pk, Ctx>(u, bytes, Mode::ParamsMax);
     out.line(&format!("C decodep {} max {} {}", ctx.name(), h, inv), &dm.wire);
     out.line(&format!("J canon {}:params-max {} {}", ctx.name(), h, verdict(&dm)), "ok");
+    emit_dsize(out, ctx, "decode_consensus", &h, bytes.len(), &d);
+    emit_dsize(out, ctx, "sane", &h, bytes.len(), &ds);
+    emit_dsize(out, ctx, "params-consensus", &h, bytes.len(), &dc);
+    emit_dsize(out, ctx, "params-max", &h, bytes.len(), &dm);
     let p = lx == "PANIC" || d.panicked || ds.panicked || dc.panicked || dm.panicked;
     out.line(&format!("J nopanic {}:{} {} {}", ctx.name(), tag, h, if p { "PANIC" } else { "ok" }), "ok");
     let cls = if d.reenc.is_some() { "accepted".to_string() } else { d.wire.clone() };
@@ -348,6 +368,10 @@ fn emit_valid<Pk: CKey, Ctx: ScriptContext<Key = Pk>>(out: &mut Out, u: &Univers
     let ds = lib_decode::<Pk, Ctx>(u, &bytes, Mode::Sane);
     let verdict = match &ds.reenc { Some(r) => script_hex(r), None => "ERR".to_string() };
     out.line(&format!("J canon {}:sane {} {}", ctx.name(), h, verdict), "ok");
+    emit_dsize(out, ctx, "decode_consensus", &h, bytes.len(), &d);
+    emit_dsize(out, ctx, "sane", &h, bytes.len(), &ds);
+    emit_dsize(out, ctx, "params-consensus", &h, bytes.len(), &dc);
+    emit_dsize(out, ctx, "params-max", &h, bytes.len(), &dm);
     let p = lx == "PANIC" || d.panicked || ds.panicked || dc.panicked || dm.panicked;
     out.line(&format!("J nopanic {}:valid {} {}", ctx.name(), h, if p { "PANIC" } else { "ok" }), "ok");
 }
@@ -363,6 +387,30 @@ fn emit_tapfull(out: &mut Out, u: &Universe, node: &Node) {
     out.line(&format!("J tapfull {} {} {}", node.wire(), script_hex(&bytes), d.wire), "ok");
     out.line(&format!("J size tapfull {} {}", node.wire(), ms.script_size()), "ok");
     out.count("tapfull: judged");
+}
+
+/// what one context contributes to the cross-context stream
+fn cross_sources(ctx: CtxK) -> Vec<Node> {
+    let mut v = seeds(ctx);
+    let dim = ast::dimension_corpus(ctx);
+    let n = dim.len();
+    // a thin regular slice plus the tail (raw key hashes; in Bare / Legacy the uncompressed-key block)
+    v.extend(dim.iter().step_by(6).cloned());
+    v.extend(dim[n.saturating_sub(14)..].iter().cloned());
+    if matches!(ctx, CtxK::Bare | CtxK::Legacy) {
+        let pk = |i: u32| Node::Check(Box::new(Node::PkK(i)));
+        v.push(pk(100));
+        v.push(Node::Multi(1, vec![100, 0, 101]));
+        v.push(Node::AndV(Box::new(Node::Verify(Box::new(pk(100)))), Box::new(pk(0))));
+        v.push(Node::AndV(Box::new(Node::Verify(Box::new(Node::Check(Box::new(Node::PkH(100)))))), Box::new(pk(0))));
+    }
+    v
+}
+
+fn encode_all<Pk: CKey, Ctx: ScriptContext<Key = Pk>>(nodes: &[Node]) -> Vec<Vec<u8>> {
+    let mut v: Vec<Vec<u8>> = nodes.iter().filter_map(|n| ast::to_ms::<Pk, Ctx>(n).ok()).map(|m| m.encode().into_bytes()).collect();
+    v.sort(); v.dedup();
+    v
 }
 
 /// rename the keys of a neutral AST
@@ -419,6 +467,12 @@ fn corpus(ctx: CtxK) -> Vec<Node> {
         v.push(Node::AndV(Box::new(Node::Verify(Box::new(Node::Check(Box::new(Node::PkH(k(i))))))), Box::new(pk(i + 1))));
     }
     if matches!(ctx, CtxK::Bare | CtxK::Legacy) {
+        // sortedmulti over mixed encodings, incl. one point in both encodings given uncompressed first
+        // (BIP67 tie-break: the compressed key sorts first)
+        v.push(Node::SortedMulti(1, vec![100, 0]));
+        v.push(Node::SortedMulti(1, vec![0, 100]));
+        v.push(Node::SortedMulti(2, vec![100, 1, 0]));
+        v.push(Node::SortedMulti(2, vec![101, 100, 1, 0]));
         for id in 100..104u32 {
             v.push(Node::Check(Box::new(Node::PkK(id))));
             v.push(Node::Check(Box::new(Node::PkH(id))));
@@ -738,6 +792,38 @@ fn handmade(ctx: CtxK) -> Vec<(String, Vec<u8>)> {
             v.push(("multi_a-twochecksig".into(), t));
         }
     }
+    // minimal PUSHDATA1 / PUSHDATA2 and odd-length direct pushes (no key / hash / number length),
+    // each followed by CHECKSIG / EQUAL / CLTV
+    {
+        let mut s = vec![0x4c, 0x4c]; s.extend(std::iter::repeat(0x11).take(76)); v.push(("pushdata1-min".into(), s.clone()));
+        s.push(0xac); v.push(("pushdata1-min".into(), s));
+        let mut s = vec![0x4d, 0x00, 0x01]; s.extend(std::iter::repeat(0x22).take(256)); v.push(("pushdata2-min".into(), s.clone()));
+        s.push(0x87); v.push(("pushdata2-min".into(), s));
+        for len in [5usize, 19, 21, 31, 34, 64, 66, 75] {
+            for tail in [0xacu8, 0x87, 0xb1] {
+                let mut s = vec![len as u8]; s.extend((0..len).map(|i| 0x02 + (i as u8 & 1))); s.push(tail);
+                v.push((format!("oddpush/{}", len), s));
+            }
+        }
+    }
+    // and_v chains padded with n: to the exact script-size ceilings of the context and one byte
+    // above: Legacy 520 (redeem script), Segwitv0 3600 (standard witness script) and 10000, Bare 10000
+    {
+        let limits: &[usize] = match ctx { CtxK::Legacy => &[520], CtxK::Segwitv0 => &[3600, 10000], CtxK::Bare => &[10000], CtxK::Tap => &[] };
+        for &lim in limits {
+            for target in [lim - 1, lim, lim + 1] {
+                // n blocks `<key> CHECKSIGVERIFY` (35 bytes), then `<key> CHECKSIG` + j x 0NOTEQUAL
+                let n = (target - 35) / 35 - 1;
+                let j = target - 35 * n - 35;
+                let mut s = vec![];
+                for i in 0..n { s.extend(key(i as u32)); s.push(0xad); }
+                s.extend(key(n as u32)); s.push(0xac);
+                s.extend(std::iter::repeat(0x92).take(j));
+                debug_assert_eq!(s.len(), target);
+                v.push((format!("sizelimit/{}", target), s));
+            }
+        }
+    }
     // regression inputs (lexer fix 042abd7f): `OP_NUMEQUAL OP_VERIFY` must be rejected as a
     // non-minimal verify; before the fix these were accepted and re-encoded to other bytes
     v.push((WITNESS_TAG.into(), vec![0x51, 0x9c, 0x69]));
@@ -782,8 +868,9 @@ fn run_ctx<Pk: CKey, Ctx: ScriptContext<Key = Pk>>(out: &mut Out, u: &Universe, 
             emit_valid::<Pk, Ctx>(out, u, ctx, &node, &mut pool);
         }
     }
-    // 3. corpus
-    for node in corpus(ctx) {
+    // 3. corpus (own) + the shared dimension corpus (raw key hashes through from_ast, uncompressed
+    //    keys in every position, mixed-encoding multi / sortedmulti, one-child thresholds, ...)
+    for node in corpus(ctx).into_iter().chain(ast::dimension_corpus(ctx)) {
         n += 1;
         node.count_frags(out);
         emit_valid::<Pk, Ctx>(out, u, ctx, &node, &mut pool);
@@ -823,6 +910,26 @@ pub fn run(out: &mut Out, thorough: bool, seed: u64) {
     let mut n = 0u64;
     for ctx in CtxK::ALL {
         n += with_ctx!(ctx, run_ctx(out, &u, ctx, thorough, &mut rng));
+    }
+    // CROSS-CONTEXT: every context's seed / dimension encodings offered to the decoders of the
+    // three OTHER contexts (65-byte key to Segwitv0 and Tap, 33-byte key to Tap, x-only key in key
+    // position outside Tap, CHECKMULTISIG script to Tap, multi_a script outside Tap)
+    {
+        let mut enc: Vec<(CtxK, Vec<Vec<u8>>)> = vec![];
+        for a in CtxK::ALL {
+            let nodes = cross_sources(a);
+            enc.push((a, with_ctx!(a, encode_all(&nodes))));
+        }
+        for b in CtxK::ALL {
+            for (a, scripts) in &enc {
+                if *a == b { continue; }
+                let tag = format!("cross-from-{}", a.name());
+                for sc in scripts {
+                    n += 1;
+                    with_ctx!(b, emit_bytes(out, &u, b, sc, &tag));
+                }
+            }
+        }
     }
     // Taproot over FULL keys: key id 200+i is the x-only form of the compressed key i
     {
